@@ -927,8 +927,14 @@ def _parse_phase_numpydoc_and_google(
                                         if style is Style.google
                                         else {
                                             "typ": scanned[return_tokens[0]][0][0],
-                                            "doc": white_spacer(
-                                                scanned[return_tokens[0]][0][1]
+                                            # every line of the description, not only its first
+                                            "doc": (
+                                                "\n" if parse_original_whitespace else " "
+                                            ).join(
+                                                map(
+                                                    white_spacer,
+                                                    scanned[return_tokens[0]][0][1:],
+                                                )
                                             ),
                                         }
                                     ),
